@@ -242,7 +242,9 @@ func scenarioFromState(st tla.State) (Scenario, error) {
 	}
 	sc.Plan = map[string][]int{}
 	for _, s := range senderNames {
-		sc.Plan[s] = v.F("plan").AtS(s).Ints()
+		if v.F("plan").Has(s) {
+			sc.Plan[s] = v.F("plan").AtS(s).Ints()
+		}
 	}
 	for _, k := range v.F("invs").Seq() {
 		sc.Invs = append(sc.Invs, k.Str())
@@ -251,7 +253,9 @@ func scenarioFromState(st tla.State) (Scenario, error) {
 	sc.Steer = Steer{Feed: w.F("feed").Str(), InvAt: w.F("invAt").Str(), DiscAt: w.F("discAt").Str(),
 		Hold: w.F("hold").Bool(), StallRead: w.F("stallRead").Int(), SendAt: map[string]string{}}
 	for _, s := range senderNames {
-		sc.Steer.SendAt[s] = w.F("sendAt").AtS(s).Str()
+		if w.F("sendAt").Has(s) {
+			sc.Steer.SendAt[s] = w.F("sendAt").AtS(s).Str()
+		}
 	}
 	if sc.Dir == "" {
 		return sc, fmt.Errorf("incomplete scenario state")
@@ -964,7 +968,7 @@ func negativeControls(ctx *vrun.Ctx, traces []*Trace, verdicts []*verdict) error
 // RunC18 is the check.
 func RunC18(ctx *vrun.Ctx) error {
 	t := tierFor(ctx)
-	ctx.Ev.Coverage.Rule = "scenarios = remote script (<= 4 messages after an optional valid handshake prefix, over version{208,209,60000,60001,70001,70002,70015,70016,70017,self}, verack, sendaddrv2, unknown, ping, getaddr, malformed, wrong-magic) x direction x local version x chain parameters {main, testnet3, nil, regtest, simnet} x remote address {127.0.0.1, routable} x remote close x 2 senders (<=3 messages) x inventory x steering of the schedule (sender start, disconnect point, held writes, held reader), sampled by TLC -simulate from PeerScenarios.tla plus its enumerated core list; each is run against a real peer.Peer (race build) and the recorded observable events are validated against Peer.tla by TLC (TracePeer.tla). distinct = distinct scenario shape + outcome class"
+	ctx.Ev.Coverage.Rule = "scenarios = remote script (<= 4 messages after an optional valid handshake prefix, over version{208,209,60000,60001,70001,70002,70015,70016,70017,self}, verack, sendaddrv2, unknown, ping, getaddr, malformed, wrong-magic) x direction x local version x chain parameters {main, testnet3, nil, regtest, simnet} x remote address {127.0.0.1, routable} x remote close x 2 senders (<=3 messages; 6 senders x 10 messages against the full output queue in the flood scenarios) x inventory x steering of the schedule (sender start, disconnect point, held writes, held reader), sampled by TLC -simulate from PeerScenarios.tla plus its enumerated core list; each is run against a real peer.Peer (race build) and the recorded observable events are validated against Peer.tla by TLC (TracePeer.tla). distinct = distinct scenario shape + outcome class"
 	ctx.Assume("v1 transport only (UsingV2Conn=false); BIP324 is property C19")
 	ctx.Assume("wall-clock timers of the peer (negotiate 30s, idle 5min, stall 15s tick, ping 2min) never fire in the recorded runs; they are model-checked as nondeterministic steps only")
 	ctx.Assume("handshake listeners (OnVersion, OnVerAck, OnSendAddrV2) and the raw OnRead/OnWrite observers are not 'protocol messages delivered to the application'")
@@ -990,7 +994,25 @@ func RunC18(ctx *vrun.Ctx) error {
 		return err
 	}
 	ctx.Logf("%d scenarios driven through the real peer, %d race reports", len(traces), len(races))
-	if err := validateAll(ctx, t, traces); err != nil {
+	// a done channel that fired twice is a violation on its face; such a trace is
+	// reported at once and not handed to TLC (its rejection would only cost time)
+	var clean []*Trace
+	for _, tr := range traces {
+		n := map[int]int{}
+		dup := false
+		for _, e := range tr.Events {
+			if e.E == "done" {
+				n[e.A]++
+				dup = dup || n[e.A] > 1
+			}
+		}
+		if dup {
+			judge(ctx, tr, nil, 0)
+		} else {
+			clean = append(clean, tr)
+		}
+	}
+	if err := validateAll(ctx, t, clean); err != nil {
 		wg.Wait()
 		return err
 	}
